@@ -4,6 +4,7 @@ written rules in Driver/SettersH.lean."""
 import os
 import checklib as cl
 import _set_common as _sc
+import _setmpz_common as _sm
 
 COMMON_TB = [
     "Lean 4.33.0 kernel; axioms limited to propext, Classical.choice, Quot.sound (audited by #print axioms on every run)",
@@ -92,11 +93,19 @@ def search(ctx, res, problems):
     return found
 
 
+def translators(repo):
+    out = dict(_sc.translators_set(repo) or {})
+    out.update(_sm.translators_setmpz(repo))
+    return out
+
+
 PROP = {
-    "streams": streams, "translators": _sc.translators_set, "search": search,
+    "streams": streams, "translators": translators, "search": search,
     "rule": "every setter entry point (set / set_mpz / constructors / operator=, poly and poly_p; pointer, vector, initializer-list, std::array, wider and narrower integer sources) × every list length 0…degree·moduli+1 × reduce on/off × value patterns built from 0, 1, p-1, p, p+1, 2p, 2^w-1, lazy words, random (native) and 0, ±1, ±(p-1), ±p, ±2^64, ±multi-hundred-bit, negative multiples of p (big integers); object pre-filled with a random sentinel; each line = one call compared with the model and with the directly written rules; distinct = distinct lines",
     "trusted_base": COMMON_TB + ["GMP: mpz_fdiv_ui(z,p) returns the floor remainder (contract; the harness compares it with an independent floor-mod on every line)",
-                                 "std::distance / iterator comparison `viter < last` behave as for random-access iterators (all sources used are contiguous)"],
+                                 "std::distance / iterator comparison `viter < last` behave as for random-access iterators (all sources used are contiguous)",
+                                 _sm.SETMPZ_AST_TB],
     "assumptions": ["sources are unsigned integer element types (value_type, or wider/narrower unsigned) or mpz_class; reduce_coeffs=false only with native words",
-                    "the number of moduli does not exceed the table (enforced by the library's static_assert)"],
+                    "the number of moduli does not exceed the table (enforced by the library's static_assert)",
+                    "source-level tie of set_mpz (C15MpzAst): valid iterator range first <= last <= length of the sequence, size and degree*nmoduli below 2^64, the object has its degree*nmoduli words, moduli 0 < p < 2^w (64 bit: 0 < p <= 2^64 suffices; 16/32 bit: p < 2^64 suffices for the equality with the model)"],
 }
